@@ -547,6 +547,29 @@ def r2_dtype(program, folder, rep, sites):
                 ok = (k0 == wa and k1 == wn) or (symmetric and k0 == wn and
                                                  k1 == wa)
                 detail = "(%r, %r)" % (k0, k1)
+                if not ok:
+                    # a key worked out from quantities that the command's
+                    # own address and length are not made of (alignments
+                    # carried along separately, ...): whether they agree is
+                    # not decided here
+                    import re as _re
+
+                    def names_(*ps_):
+                        out = set()
+                        for p_ in ps_:
+                            out |= set(_re.findall(
+                                r"[A-Za-z_][A-Za-z_0-9.]*", repr(p_)))
+                        return out - {"mod", "fdiv", "len", "slice", "min",
+                                      "max"}
+                    other = names_(k0, k1) - names_(A, N)
+                    if other:
+                        rep.undecided(
+                            ["C07-R2"], "%s: the access type is looked up "
+                            "with a key computed from %s, which the "
+                            "command's own address and length are not made "
+                            "of; not analysed" % (inst, ", ".join(sorted(
+                                other))))
+                        continue
         if not ok and not detail and a3 is not None:
             # not a look-up in the table at all
             fixed = isinstance(e, ast.Attribute) and (chain(e) or "").startswith(
